@@ -183,6 +183,19 @@ Definition eq_sym_known (a b : ty) : bool :=
   | _, _ => false
   end.
 
+(* ---- the mirror law  a OP b  =  b (flipped OP) a  for < <= > >= : it holds on every operand pair
+   except the kind pairs below (the relational nodes dispatch on the LEFT operand's kind, and a
+   string on the left compares texts while a number / null / bool on the left converts the right
+   operand or gives false) *)
+Definition flip (o : relop) : relop := match o with RLt => RGt | RLe => RGe | RGt => RLt | RGe => RLe end.
+Definition mirror_known (a b : ty) : bool :=
+  match a, b with
+  | TNull, TInt | TInt, TNull | TNull, TFloat | TFloat, TNull | TNull, TStr | TStr, TNull
+  | TBool, TStr | TStr, TBool | TInt, TStr | TStr, TInt | TFloat, TStr | TStr, TFloat
+  | TStr, TArr | TArr, TStr | TStr, TObj | TObj, TStr | TStr, TCls | TCls, TStr => true
+  | _, _ => false
+  end.
+
 (* ---- (int) and (float) on scalars (docs/data-types.md "显式转换": (int)"42" = 42, (int)"42.5" = 42
    truncated, (int)"hello" = 0, (float)"3.14" = 3.14, (float)"42" = 42.0): numbers convert, a
    numeric string converts through its value, anything that is not a number gives 0, true is 1 *)
